@@ -50,19 +50,23 @@ Arguments NoConv {A}.
 Arguments ERange {A}.
 Arguments Conv {A} v rest.
 
-(* sign and the rest *)
+(* optional sign: returns (negative, text after the sign) *)
 Definition take_sign (s : bytes) : bool * bytes :=
   match s with
-  | 45 :: t => (true, t)
-  | 43 :: t => (false, t)
-  | _ => (false, s)
+  | c :: t => if c =? 45 then (true, t) else if c =? 43 then (false, t) else (false, s)
+  | [] => (false, [])
   end.
+
+(* the part common to strtoll and strtoull: white space, sign, the run of digits, what follows *)
+Definition scan_num (str : bytes) : bool * bytes * bytes :=
+  let '(neg, s2) := take_sign (skip_space str) in
+  let '(ds, rest) := span_digits s2 in
+  (neg, ds, rest).
 
 (* strtoull(str, &ptr, 10): a minus sign negates the value in unsigned arithmetic and is not an
    error; ERANGE only when the magnitude exceeds ULONG_MAX *)
 Definition strtoull10 (str : bytes) : strto N :=
-  let '(neg, s2) := take_sign (skip_space str) in
-  let '(ds, rest) := span_digits s2 in
+  let '(neg, ds, rest) := scan_num str in
   match ds with
   | [] => NoConv
   | _ :: _ =>
@@ -75,8 +79,7 @@ Definition strtoull10 (str : bytes) : strto N :=
        if (overflow == 0 && i > (negative ? -(LONG_MIN + 1) + 1 : LONG_MAX)) overflow = 1; *)
 Definition I64MAX : N := 9223372036854775807.
 Definition strtoll10 (str : bytes) : strto Z :=
-  let '(neg, s2) := take_sign (skip_space str) in
-  let '(ds, rest) := span_digits s2 in
+  let '(neg, ds, rest) := scan_num str in
   match ds with
   | [] => NoConv
   | _ :: _ =>
@@ -127,13 +130,13 @@ Definition ly_parse_uint (s : bytes) (max : Z) : res Z :=
 Definition plg_parse_int (s : bytes) (min max : Z) : res Z :=
   match skip_space s with
   | [] => Err E_EMPTY
-  | c0 :: _ as v => if c0 =? 0 then Err E_EMPTY else ly_parse_int v min max
+  | (c0 :: _) as v => if c0 =? 0 then Err E_EMPTY else ly_parse_int v min max
   end.
 
 Definition plg_parse_uint (s : bytes) (max : Z) : res Z :=
   match skip_space s with
   | [] => Err E_EMPTY
-  | c0 :: _ as v => if c0 =? 0 then Err E_EMPTY else ly_parse_uint v max
+  | (c0 :: _) as v => if c0 =? 0 then Err E_EMPTY else ly_parse_uint v max
   end.
 
 (* ---------- the eight types ---------- *)
@@ -173,3 +176,32 @@ Definition int_canon (v : Z) : bytes := Z_to_dec v.
 (* lyplg_type_compare_int/uint: != on the stored integers; lyplg_type_sort_int/uint: < > on them *)
 Definition int_compare (a b : Z) : bool := (a =? b)%Z.
 Definition int_sort (a b : Z) : comparison := (a ?= b)%Z.
+
+(* ---------- Spec ----------
+   RFC 7950 9.2.1: an integer value is lexically represented as an optional sign (+ or -) followed by
+   a sequence of decimal digits; the value is the number so written. *)
+Definition all_space (ws : bytes) : Prop := forallb is_space ws = true.
+Definition all_digit (ds : bytes) : Prop := forallb is_digit ds = true.
+Definition is_sign (sg : bytes) : Prop := sg = [] \/ sg = [43] \/ sg = [45].
+Definition sign_val (sg : bytes) (m : N) : Z :=
+  if beq_bytes sg [45] then (- Z.of_N m)%Z else Z.of_N m.
+(* nothing, or a NUL byte followed by anything *)
+Definition nul_tail (tl : bytes) : Prop := tl = [] \/ exists j, tl = 0 :: j.
+
+Inductive rfc_int_lex : bytes -> Z -> Prop :=
+| RfcInt sg ds :
+    is_sign sg -> ds <> [] -> all_digit ds ->
+    rfc_int_lex (sg ++ ds) (sign_val sg (dec_to_N ds)).
+
+(* The language libyang accepts for integer data values, stated explicitly: the RFC representation
+   with any isspace() characters before and after it (documented tolerance of libyang), and - as
+   coded, through the entry points that take a length - cut at the first NUL byte. *)
+Inductive ly_int_lex : bytes -> Z -> Prop :=
+| LyInt ws1 core ws2 tl v :
+    all_space ws1 -> all_space ws2 -> nul_tail tl -> rfc_int_lex core v ->
+    ly_int_lex (ws1 ++ core ++ ws2 ++ tl) v.
+
+(* RFC 7950 9.2.2 canonical form: no plus sign, no leading zeros, zero is the single digit 0 *)
+Definition rfc_int_canonical (c : bytes) : Prop :=
+  c = [48] \/
+  exists sg d ds, c = sg ++ d :: ds /\ (sg = [] \/ sg = [45]) /\ is_digit d = true /\ d <> 48 /\ all_digit ds.
